@@ -51,10 +51,12 @@ EXPLANATION = ("Theorems (models, unbounded): sequential Phragmen (resolute and 
                "factor, via one simulation theorem; greedy: name-sorting makes the candidate lists independent of the "
                "enumeration, same outcome under permuted satisfaction-profile entries and under scaling (k for money, "
                "j for satisfactions); welfare maximiser: the attained welfare is invariant / scales by j (from the C04 "
-               "optimality theorem); Equal Shares: scaling (resolute, irresolute, iterated) by a step-by-step "
-               "simulation, the R6 step (tie order independent of collection order) and the refutation of the pre-R6 "
-               "models of Equal Shares and Phragmen on the 6-project witness.  UNPROVED: enumeration- and voter-order "
-               "independence of whole Equal Shares runs (Props/C13.v).  Tie: every outcome of every "
+               "optimality theorem); Equal Shares: enumeration- and voter-order independence of the resolute, iterated and "
+               "irresolute rule (through C02's model-refines-textbook theorem, the functionality of the textbook run, "
+               "and C08's irresolute = all orders), scaling of all four entry points by a step-by-step simulation, "
+               "the R6 step on the code path and the refutation of the pre-R6 models of Equal Shares and Phragmen on "
+               "the 6-project witness.  UNPROVED: only the iterated+irresolute Equal Shares entry point "
+               "(Props/C13.v).  Tie: every outcome of every "
                "presentation/seed/repetition is handed to Coq, which decides equality (C13_oracle_sound); Phragmen "
                "outcomes are also compared with the model.")
 
